@@ -138,7 +138,12 @@ func main() {
 	drv := flag.String("driver", "/verif/build/spec/specdriver", "spec driver binary")
 	dir := flag.String("testdata", "/repo/testdata", "directory with urltestdata.json and setters_tests.json")
 	verbose := flag.Bool("v", false, "print every vector")
+	oracleMode := flag.Bool("oracle", false, "serve the ToASCII oracle on stdin/stdout (one hex string per line -> 'A <flag> <hex>') and exit")
 	flag.Parse()
+	if *oracleMode {
+		serveOracle()
+		return
+	}
 	d := newDriver(*drv)
 	d.verbose = *verbose
 	bad := 0
@@ -384,10 +389,70 @@ func main() {
 	}
 	fmt.Printf("urlencoded (built-in vectors): %d vectors, %d agree\n", nf, okf)
 
+	// ---------- toascii.json (wpt url/toascii.window.js: new URL("https://" + input + "/x")) ----------
+	// Informational: these vectors exercise the Unicode ToASCII oracle itself, which is the Go library's
+	// wrapper here; a disagreement is counted separately and does not make the run fail.
+	if raw, err := os.ReadFile(*dir + "/toascii.json"); err == nil {
+		var tas []json.RawMessage
+		json.Unmarshal(raw, &tas)
+		nt, okt := 0, 0
+		for idx, it := range tas {
+			if len(it) > 0 && it[0] == '"' {
+				continue
+			}
+			var v struct {
+				Input  string
+				Output *string
+			}
+			if json.Unmarshal(it, &v) != nil {
+				continue
+			}
+			nt++
+			ans := d.ask("P " + hx("https://"+v.Input+"/x"))
+			got, isU := decodeU(ans)
+			switch {
+			case v.Output == nil && ans == "F":
+				okt++
+			case v.Output != nil && isU && got["host"] == *v.Output && got["hostname"] == *v.Output && got["pathname"] == "/x":
+				okt++
+			default:
+				want := "<failure>"
+				if v.Output != nil {
+					want = *v.Output
+				}
+				fmt.Printf("IDNA-ZONE toascii[%d] input=%q: expected host %q, spec says %s (oracle %v)\n", idx, v.Input, want, render(ans), d.oracle)
+			}
+		}
+		fmt.Printf("toascii.json (informational, oracle = Go wrapper): %d vectors, %d agree, %d disagree\n", nt, okt, nt-okt)
+	}
+
 	d.in.Close()
 	d.cmd.Wait()
 	if bad > 0 {
 		os.Exit(1)
+	}
+}
+
+// serveOracle answers ToASCII questions with the Go library's wrapper: a debugging aid for driving the spec
+// driver from other tools.
+func serveOracle() {
+	in := bufio.NewReader(os.Stdin)
+	out := bufio.NewWriter(os.Stdout)
+	for {
+		line, err := in.ReadString('\n')
+		line = strings.TrimSpace(line)
+		if line != "" {
+			a, e := url.VerifToASCII(toASCIIParser, unhx(line), false)
+			if e != nil {
+				fmt.Fprintln(out, "A 1 -")
+			} else {
+				fmt.Fprintln(out, "A 0 "+hx(a))
+			}
+			out.Flush()
+		}
+		if err != nil {
+			return
+		}
 	}
 }
 
